@@ -67,7 +67,7 @@ def model_rows(skel, g, prefix="t"):
 
 
 OPS = ("fancy", "mask", "slice_tail", "slice_rev", "concat", "sort_by", "replace", "add_fields", "add_fields_twice", "single", "rows_roundtrip",
-       "replace_wrong_len")
+       "replace_wrong_len", "mask_list", "fancy_list", "concat_empty", "concat_with_empty")
 
 
 class TableOps(Harness):
@@ -120,12 +120,27 @@ class TableOps(Harness):
             r = t[ctx.arr(bits, "int64") == 1]
             log.append(("mask", [bool(b == 1) for b in bits]))
             return r
+        if op == "mask_list":       # the mask as a plain Python list of bools (NumPy treats it like a boolean array)
+            bits = [bool(x[f"m{k}_{j}"] == 1) for j in range(n)]
+            log.append(("mask", list(bits)))
+            return t[bits]
+        if op == "fancy_list":      # the index vector as a plain Python list of ints
+            idx = [int(x[f"i{k}_{j}"]) for j in range(3)]
+            for v in idx:
+                if not -n <= v < n:
+                    raise IndexError("harness: index out of range for this table")
+            log.append(("fancy", idx))
+            return t[idx]
         if op == "slice_tail":
             return t[1:]
         if op == "slice_rev":
             return t[::-1]
         if op == "concat":
             return ctx.np.concatenate([t, t[:2]])
+        if op == "concat_empty":    # only row-less operands
+            return ctx.np.concatenate([t[0:0], t[n:], t[0:0]])
+        if op == "concat_with_empty":
+            return ctx.np.concatenate([t[0:0], t, t[n:]])
         if op == "sort_by":
             r = t.sort_by("start")
             return r
@@ -185,9 +200,16 @@ class TableOps(Harness):
         if op == "fancy":
             idx = log.pop(0)[1]
             return [rows[i] for i in idx]
-        if op == "mask":
+        if op in ("mask", "mask_list"):
             bits = log.pop(0)[1]
             return [r for r, b in zip(rows, bits) if b]
+        if op == "fancy_list":
+            idx = log.pop(0)[1]
+            return [rows[i] for i in idx]
+        if op == "concat_empty":
+            return []
+        if op == "concat_with_empty":
+            return list(rows)
         if op == "slice_tail":
             return rows[1:]
         if op == "slice_rev":
